@@ -18,6 +18,7 @@ Streams: (a) real unparser streams (corpus programs x printers x comments on/off
 CRLF variants, several `sourcepath`s chained), (b) synthetic streams.
 """
 import io
+from itertools import chain
 import json
 import re
 
@@ -379,6 +380,35 @@ def real_streams(ctx, rng, nprog, nmulti):
                 tree.sourcepath = None
         if ok:
             yield ('real-multi/%s/n=%d' % (pname, n), list(chain(*streams)))
+            MULTI_PARTS.append(streams)
+
+
+MULTI_PARTS = []     # the per-source streams of the chained scenarios, for the multi-call form of write()
+
+
+def multi_call_differences(parts):
+    """the documented alternative to chaining: successive write() calls sharing Book, Names (sources, names) and mappings
+    (normalize off) must give what one call on the chained stream gives; -> None or a description"""
+    from calmjs.parse import sourcemap
+    s1 = io.StringIO()
+    try:
+        r1 = sourcemap.write(chain(*[list(p) for p in parts]), s1, normalize=False)
+    except Exception as e:
+        return None         # the chained call itself is judged elsewhere
+    s2 = io.StringIO()
+    book, sources, names, mappings = sourcemap.default_book(), sourcemap.Names(), sourcemap.Names(), None
+    try:
+        for part in parts:
+            mappings, so, na = sourcemap.write(iter(list(part)), s2, normalize=False, book=book, sources=sources, names=names,
+                                               mappings=mappings)
+    except Exception as e:
+        return 'successive write() calls raise %s: %s' % (type(e).__name__, e)
+    if s1.getvalue() != s2.getvalue():
+        return 'successive write() calls write another text than one call on the chained stream'
+    if (r1[0], list(r1[1]), list(r1[2])) != (mappings, list(so), list(na)):
+        return 'successive write() calls sharing book / sources / names give %r, one chained call gives %r' % (
+            (render_mappings(mappings)[:120], list(so), list(na)), (render_mappings(r1[0])[:120], list(r1[1]), list(r1[2])))
+    return None
 
 
 TEXT_ATOMS = ['a', 'bc', 'foo', ' ', '  ', ';', '{', '\n', '\n', '\r\n', '\r', 'x\ny', "'s\\\n t'", '/* c\n d */',
@@ -646,6 +676,18 @@ def run(ctx):
             ctx.sample(dict(kind=label, frags=frag_list_json(frags)[:12]))
     ctx.obligation('real unparser streams are WFStream (both-or-none, no split CRLF): %d streams' % nreal,
                    nosplit_real, 'tie')
+
+    # the multi-call form of write() on the chained scenarios (obfuscating printers rename differently per source)
+    mc_bad = None
+    for parts in MULTI_PARTS:
+        ctx.case(('multi-call', len(parts), sum(len(p) for p in parts)))
+        d = multi_call_differences(parts)
+        if d:
+            mc_bad = (d, [frag_list_json(list(p))[:8] for p in parts])
+            break
+    ctx.bump('multi-call-scenarios', len(MULTI_PARTS))
+    if mc_bad:
+        ctx.violation('C09: ' + mc_bad[0], dict(kind='multi-call', parts=mc_bad[1]), True)
 
     rng = ctx.sub_rng('synthetic')
     for k in range(ctx.n(1500, 30000)):
